@@ -81,6 +81,31 @@ def main():
         okk = got is not None and ((want is None and not [c for c in got if not c.startswith("R:")]) or (want is not None and any(c.startswith(want) for c in got)))
         print(("ok   " if okk else "FAIL ") + f"{k}: expected {want or 'no clause'}, got {sorted(got) if got is not None else 'not explained'}")
         bad += 0 if okk else 1
+    # ---- the constructor, label sets, the permutation helper: a session with graph_from_molecule, a graph whose labels are
+    # not 0..n-1, two permute_molecule calls and a serialization of a non-canonical graph
+    bbase = json.load(open(os.path.join(HERE, "fixtures", "session_build.json")))
+    def bvariant(name, fn):
+        c = copy.deepcopy(bbase); c["id"] = name; fn(c["ev"]); return c
+    def other_labels(ev):
+        first(ev, "permute")["g"]["labs"][0] += 1          # the result lives on another label set
+    def stale_code(ev):
+        first(ev, "build")["g"]["atoms"][0]["ic"][1] = 0   # the constructor kept a code without the isotope
+    def lost_bond_data(ev):
+        first(ev, "permute")["g"]["edges"][0][2] += ";x=1"  # a bond attribute is not what the argument's bond carried
+    def not_renumbered(ev):
+        first(ev, "canon")["g"]["labs"][-1] += 3           # the canonical graph is not numbered 0..n-1
+    def raw_mutates(ev):
+        first(ev, "serraw")["after"]["edges"].pop()        # serializing changed the bonds of its argument
+    bcases = [bbase, bvariant("other-labels", other_labels), bvariant("stale-code", stale_code), bvariant("lost-bond-data", lost_bond_data),
+              bvariant("not-renumbered", not_renumbered), bvariant("raw-mutates", raw_mutates)]
+    bv = verdicts(bcases)
+    bexpect = {bbase["id"]: None, "other-labels": "C16:label-set-changed", "stale-code": "R:build-invariant-code", "lost-bond-data": "C16:not-a-faithful-relabelled-copy",
+               "not-renumbered": "C04:result-not-numbered-0..n-1", "raw-mutates": "C12:serialize-changed-bonds"}
+    for k, want in bexpect.items():
+        got = bv.get(k)
+        okk = got is not None and ((want is None and not [c for c in got if not c.startswith("R:")]) or (want is not None and any(c.startswith(want) for c in got)))
+        print(("ok   " if okk else "FAIL ") + f"{k}: expected {want or 'no clause'}, got {sorted(got) if got is not None else 'not explained'}")
+        bad += 0 if okk else 1
     return 1 if bad or not ok else 0
 
 
